@@ -1682,6 +1682,50 @@ fn stage_boundary(args: &Args) -> Vec<TaskOut> {
 
 /// single calls larger than the 128 KiB two-pass block at quality 0/1 (and a few others), StandardAlloc
 /// vs over-allocating allocator, ample output
+/// C04 class "block-aligned flush": the bytes supplied with PROCESS since the last meta-block are an
+/// EXACT multiple of the input block (1 << lgblock), the data is compressible (encode_data keeps the
+/// meta-block open at the block boundary) and the FLUSH that follows carries no input of its own
+/// (`CompressorWriter::flush()`): `unprocessed_input_size() == 0` while commands are still pending.
+/// Also one byte short of / beyond the boundary, with more input and a FINISH behind. Deterministic.
+fn stage_aligned_flush(args: &Args) -> Vec<TaskOut> {
+    let seed = args.seed;
+    // (quality, lgwin, lgblock the encoder will choose)
+    let grid: Vec<(u32, u32, u32)> = vec![(2, 16, 14), (3, 18, 14), (2, 22, 14), (4, 14, 16), (5, 16, 16), (6, 18, 16), (7, 16, 16), (9, 16, 16), (5, 22, 16), (9, 18, 18)];
+    let n = grid.len() * 2 * 3 * 2;
+    let grid = std::sync::Arc::new(grid);
+    par_tasks(n, move |i| {
+        let (q, w, lgb) = grid[i % grid.len()];
+        let j = i / grid.len();
+        let m = 1 + j % 2;                 // blocks before the flush
+        let delta = (j / 2) % 3;           // 0: exact, 1: one byte short, 2: one byte beyond
+        let split = (j / 6) % 2 == 1;      // PROCESS in two calls
+        let mut rng = Rng::new(seed ^ 0xA11F ^ ((i as u64) << 20));
+        let mut rep = Report::default();
+        let lines = vec![];
+        if skip_task(i) { return TaskOut { lines, rep }; }
+        set_task(format!("replay: BV_ONLY={} bvh stream c04 --seed {} (aligned-flush stage: q{} lgwin{} blocks{} delta{} split{})", i, seed, q, w, m, delta, split));
+        let bs = 1usize << lgb;
+        let len = match delta { 0 => m * bs, 1 => m * bs - 1, _ => m * bs + 1 };
+        let cfg = simple_cfg(q, w, false, false, 0);
+        let d = gen_bytes(&mut rng, len, if i % 3 == 0 { 4 } else { 2 });
+        let tail = gen_bytes(&mut rng, 500 + (i % 5) * 211, 2);
+        let mut reqs = vec![];
+        if split { let k = 1 + (rng.below((len - 1) as u64) as usize); reqs.push(Req { op: OP_PROCESS, data: d[..k].to_vec() }); reqs.push(Req { op: OP_PROCESS, data: d[k..].to_vec() }); }
+        else { reqs.push(Req { op: OP_PROCESS, data: d.clone() }); }
+        reqs.push(Req { op: OP_FLUSH, data: vec![] });
+        reqs.push(Req { op: OP_PROCESS, data: tail.clone() });
+        reqs.push(Req { op: OP_FLUSH, data: vec![] });
+        reqs.push(Req { op: OP_FINISH, data: vec![] });
+        let sched = if i % 4 == 0 { gen_sched(&mut rng) } else { OutSched::ample() };
+        let sched = if sched.caps.iter().all(|c| *c < 64) { OutSched { caps: vec![4096, 1, 70000], ..sched } } else { sched };
+        let ro = drive(&cfg, &reqs, &sched, false);
+        rep.count("aligned_flush.cases");
+        rep.count(&format!("aligned_flush.delta{}", delta));
+        judge_plan(&cfg, &ro, &mut rep, true, true);
+        TaskOut { lines, rep }
+    })
+}
+
 fn stage_alloc_big(args: &Args) -> Vec<TaskOut> {
     let seed = args.seed;
     let mut grid: Vec<(u32, u32, usize, bool)> = vec![];
@@ -1921,7 +1965,7 @@ pub fn run_cmd(args: &Args) {
     run_corpus(&mut rep, &mut pre_lines);
     let scale = if thorough { 12 } else { 1 };
     if which == "c01" || which == "all" { outs.extend(stage_plans(args, 9000 * scale, 0xC01, true, false)); outs.extend(stage_fragments(args, 24 * scale)); outs.extend(stage_ringwrap(args, 24 * scale)); }
-    if which == "c04" || which == "all" { outs.extend(stage_plans(args, 6000 * scale, 0xC04, true, true)); }
+    if which == "c04" || which == "all" { outs.extend(stage_plans(args, 6000 * scale, 0xC04, true, true)); outs.extend(stage_aligned_flush(args)); }
     if which == "c05" || which == "all" { outs.extend(stage_pairs(args, 3500 * scale)); outs.extend(stage_alloc_big(args)); outs.extend(stage_boundary(args)); }
     if which == "c20" || which == "all" {
         outs.extend(stage_exhaustive(args));
